@@ -2338,3 +2338,94 @@ Example rearm_cas :
      [122;0;0];[303;0;0];[304;0;0]]
   /\ applied (fst r) = [1;2;3] /\ wakeTok (fst r) = false /\ head (fst r) = 3 /\ tail (fst r) = 3.
 Proof. vm_compute. auto 10. Qed.
+
+(* ================================================================ layer U: ids stay distinct *)
+
+Definition op_wid (o : op) : list Z :=
+  match o with OSetAsync id | OEnqueue id | OSet id => [id] | _ => [] end.
+Definition script_ids (l : list op) : list Z := flat_map op_wid l.
+(* the current write is neither reserved nor applied yet *)
+Definition pend_pc (p : pcT) : bool := match p with P104 | P105 | P106 => false | _ => true end.
+Definition cur_pending (th : thread) : list Z :=
+  match cur th with Some o => if pend_pc (pc th) then op_wid o else [] | None => [] end.
+Definition th_ids (th : thread) : list Z := cur_pending th ++ script_ids (script th).
+Definition remaining (s : gstate) : list Z := flat_map th_ids (threads s).
+
+Notation cnt := (count_occ Z.eq_dec).
+
+Definition invU (s : gstate) : Prop :=
+  forall x, (cnt (wids (resv s)) x + cnt (dlog s) x + cnt (remaining s) x <= 1)%nat.
+
+Lemma upd_split {A} (l1 l2 : list A) x y : upd (l1 ++ x :: l2) (length l1) y = l1 ++ y :: l2.
+Proof. induction l1 as [|z l1 IH]; cbn; auto. f_equal. auto. Qed.
+
+Lemma remaining_upd s s' tid th th1 x :
+  thr s tid th -> threads s' = upd (threads s) tid th1 ->
+  (cnt (remaining s') x + cnt (th_ids th) x = cnt (remaining s) x + cnt (th_ids th1) x)%nat.
+Proof.
+  unfold thr, remaining. intros Hth Hthr. rewrite Hthr.
+  apply nth_error_split in Hth as (l1 & l2 & -> & <-). rewrite upd_split.
+  rewrite !flat_map_app. cbn [flat_map]. rewrite !count_occ_app. lia.
+Qed.
+
+Lemma invU_frame s s' tid th th1 :
+  invU s -> thr s tid th -> threads s' = upd (threads s) tid th1 ->
+  (forall x, (cnt (wids (resv s')) x + cnt (dlog s') x + cnt (th_ids th1) x
+              <= cnt (wids (resv s)) x + cnt (dlog s) x + cnt (th_ids th) x)%nat) ->
+  invU s'.
+Proof.
+  intros HU Hth Hthr H x. specialize (HU x). specialize (H x).
+  pose proof (remaining_upd s s' tid th th1 x Hth Hthr). lia.
+Qed.
+
+Lemma wid_cmd_of o : cur_ok P103 (Some o) = true -> wid (cmd_of o) = op_wid o.
+Proof. destruct o; cbn; auto; discriminate. Qed.
+
+Definition all_script_ids (scripts : list (list op)) : list Z := flat_map script_ids scripts.
+
+Lemma invU_init f n B scripts : NoDup (all_script_ids scripts) -> invU (init_scripts f n B scripts).
+Proof.
+  intros H x. cbn. unfold remaining. cbn [threads init_scripts init_state].
+  assert (E : flat_map th_ids (map thread_of scripts) = all_script_ids scripts).
+  { clear H. unfold all_script_ids. induction scripts as [|l r IH]; cbn; auto.
+    rewrite IH. reflexivity. }
+  rewrite E. rewrite (NoDup_count_occ Z.eq_dec) in H. apply H.
+Qed.
+
+Lemma invU_step c s tid s' o : invA s -> invU s -> lstepc c s tid = Some (s', o) -> invU s'.
+Proof.
+  intros HA HU Hs. apply lstepc_inv in Hs as (th & s1 & th1 & Hth & Hst & ->).
+  pose proof (proj1 HA _ _ Hth) as [Hok _ _ _ Hwf].
+  step_leaves Hst Hok.
+  all: norm_state.
+  all: try (match goal with E : script _ = _ :: _ |- _ => rewrite E in Hwf end).
+  all: try (cbn in Hwf; discriminate Hwf).
+  all: eapply (invU_frame _ _ tid th); [exact HU|exact Hth|reflexivity|].
+  all: intros x; unfold th_ids, cur_pending;
+       cbn [resv dlog cur pc script pend_pc];
+       rewrite ?Hcur, ?Hpc; cbn [pend_pc op_wid cmd_of];
+       try (match goal with E : script _ = _ :: _ |- _ => rewrite E end);
+       cbn [script_ids flat_map op_wid app];
+       rewrite ?wids_app, ?count_occ_app; cbn [wids flat_map wid app count_occ].
+  all: unfold script_ids; clear; repeat destruct (Z.eq_dec _ _); lia.
+Qed.
+
+Lemma invAU_reachable f n B scripts s :
+  wf_scripts scripts -> NoDup (all_script_ids scripts) ->
+  reachable (init_scripts f n B scripts) s -> invA s /\ invU s.
+Proof.
+  intros Hwf Hnd H. induction H as [|s c tid s' o H IH Hs].
+  - split; [apply invA_init; auto | apply invU_init; auto].
+  - destruct IH as [HA HU]. split; [eapply invA_step; eauto | eapply invU_step; eauto].
+Qed.
+
+(* ---- 3 (continued): with distinct write ids in the scripts, every id is applied at most once ---- *)
+Theorem exactly_once f n B scripts s :
+  2 <= n -> wf_scripts scripts -> NoDup (all_script_ids scripts) ->
+  reachable (init_scripts f n B scripts) s -> NoDup (applied s).
+Proof.
+  intros Hn Hwf Hnd H.
+  destruct (exactly_once_fifo _ _ _ _ _ Hn Hwf H) as (_ & _ & Himp & _). apply Himp.
+  destruct (invAU_reachable _ _ _ _ _ Hwf Hnd H) as [_ HU].
+  apply (NoDup_count_occ Z.eq_dec). intros x. specialize (HU x). rewrite count_occ_app. lia.
+Qed.
